@@ -726,9 +726,9 @@ class Ctx:
             self.assume(p < z3.RealVal("3.14159266"))
         return p
 
-    _cosf = z3.Function("cos", z3.RealSort(), z3.RealSort())
-    _sinf = z3.Function("sin", z3.RealSort(), z3.RealSort())
-    _acosf = z3.Function("acos", z3.RealSort(), z3.RealSort())
+    _cosf = z3.Function("cos_u", z3.RealSort(), z3.RealSort())
+    _sinf = z3.Function("sin_u", z3.RealSort(), z3.RealSort())
+    _acosf = z3.Function("acos_u", z3.RealSort(), z3.RealSort())
 
     def trig(self, which, x):
         self.result.assumptions.add(
@@ -742,7 +742,9 @@ class Ctx:
         zx = sym.zreal(x)
         key = ("trig", zx.get_id())
         if key not in self.trig_cache:
-            c, s = self._cosf(zx), self._sinf(zx)
+            # fresh constants per distinct argument term (not UF applications: with pure real
+            # constants the obligations stay inside nonlinear real arithmetic, where nlsat decides them)
+            c, s = self.fresh("cos", "Real"), self.fresh("sin", "Real")
             self.assume(c * c + s * s == 1)
             self.trig_cache[key] = (c, s)
             self._exact_trig(zx, c, s)
@@ -796,25 +798,25 @@ class Ctx:
         bad = simp(z3.Or(zx < -1, zx > 1))
         if self.branch(bad, None):
             raise PyRaise("ValueError", "math domain error")
-        a = self._acosf(zx)
         key = ("acos", zx.get_id())
         if key not in self.trig_cache:
+            a = self.fresh("acos", "Real")
             self.trig_cache[key] = a
             self.assume(a >= 0)
             self.assume(a <= self.pi())
-            self.assume(self._cosf(a) == zx)
-            s = self._sinf(a)
-            self.assume(s >= 0)
-            self.assume(s * s + zx * zx == 1)
             self.assume(z3.Implies(zx == 1, a == 0))
             self.assume(z3.Implies(zx == -1, a == self.pi()))
             self.assume(z3.Implies(zx == 0, a * 2 == self.pi()))
-        return a
+            self.trig_cache[("trig", a.get_id())] = (zx, self.sqrt_of(1 - zx * zx))
+        return self.trig_cache[key]
 
     def uninterp(self, name, x):
-        f = z3.Function(name, z3.RealSort(), z3.RealSort())
-        self.result.assumptions.add(f"A-REAL: {name} is an uninterpreted real function")
-        return f(sym.zreal(x))
+        self.result.assumptions.add(f"A-REAL: {name} is an uninterpreted real function (fresh constant per argument term)")
+        zx = sym.zreal(x)
+        key = (name, zx.get_id())
+        if key not in self.trig_cache:
+            self.trig_cache[key] = self.fresh(name, "Real")
+        return self.trig_cache[key]
 
     # ------------------------------------------------------------------ inputs
     def make(self, desc, name):
@@ -853,6 +855,13 @@ class Ctx:
                 vals.append(v)
                 recs.append(r)
             return PList(vals), ("list", recs)
+        if isinstance(desc, T.NpVec):
+            vals, recs = [], []
+            for i in range(desc.n):
+                v, r = self.make(T.Real, f"{name}[{i}]")
+                vals.append(v)
+                recs.append(r)
+            return PVec(vals), ("npvec", recs)
         if isinstance(desc, T.Items):
             vals, recs = [], []
             for i, e in enumerate(desc.elems):
@@ -996,6 +1005,10 @@ class Ctx:
             b = I.eval(e.args[1], fr)
             tol = I.eval(e.args[2], fr) if len(e.args) > 2 else Fraction("1e-6")
             return sym.num_cmp("<=", sym.num_abs(sym.num_sub(a, b)), tol)
+        if nm == "sqrt":
+            from . import builtins_model as bm
+
+            return bm._sqrt(I, I.eval(e.args[0], fr))
         if nm == "isint":
             v = I.eval(e.args[0], fr)
             if sym.is_intlike(v):
@@ -1140,6 +1153,8 @@ class Ctx:
             return [self._conc(r, model) for r in rec[1]]
         if k == "tuple":
             return {"$tuple": [self._conc(r, model) for r in rec[1]]}
+        if k == "npvec":
+            return {"$npvec": [self._conc(r, model) for r in rec[1]]}
         if k == "dict":
             return {"$dict": [[self._conc(a, model), self._conc(b, model)] for a, b in rec[1]]}
         if k == "obj":
@@ -1174,6 +1189,8 @@ class Ctx:
         """Modular call: check requires, havoc the frame, assume ensures."""
         if self.speculating:
             raise SpecAbort()
+        if c.kind == "assumed":
+            self.result.assumptions.add(f"assumed contract {c.name} on {info.key}: {c.notes or '; '.join(c.ensures)}")
         loc = I.bind_args(info, args, kwargs, fr)
         site = f"{self.contract.name}/pre@{c.name}#L{getattr(node, 'lineno', 0)}"
         for i, text in enumerate(c.requires):
@@ -1205,6 +1222,8 @@ class Ctx:
                     res = obj.fields.get(field)
                 skip.add(text)
         env["result"] = res
+        for gname, gdesc in c.ghost_returns.items():
+            env[gname], _ = self.make(gdesc, self.fresh_label(f"{c.name}.{gname}"))
         for text in c.ensures + c.assume_post:
             if text in skip:
                 continue
@@ -1225,6 +1244,9 @@ class Ctx:
         """pattern: 'param.field' with a descriptor taken from the callee's params."""
         root, _, field = pattern.partition(".")
         obj = loc.get(root)
+        if field == "*" and isinstance(obj, PList):
+            self._havoc_leaves(obj, self.fresh_label(f"{c.name}.{root}'"))
+            return
         if not isinstance(obj, PObj) or not field:
             raise Unsupported(f"havoc pattern {pattern}")
         desc = c.params.get(root)
@@ -1338,6 +1360,17 @@ class Ctx:
             out.append(self.concretize(md))
         return out
 
+    def _havoc_leaves(self, lst, label):
+        for i, x in enumerate(lst.items):
+            if isinstance(x, PList):
+                self._havoc_leaves(x, f"{label}[{i}]")
+            elif sym.is_intlike(x) and not isinstance(x, bool):
+                lst.items[i] = z3.Int(f"{label}[{i}]")
+            elif sym.is_num(x):
+                lst.items[i] = z3.Real(f"{label}[{i}]")
+            else:
+                raise Unsupported("deep havoc of a non-numeric list")
+
     # ------------------------------------------------------------------ the run
     def run(self):
         res = self.result
@@ -1443,6 +1476,9 @@ class Ctx:
             self.result.return_paths += 1
             env2 = dict(env)
             env2["result"] = outcome[1]
+            for gname, wit in c.ghost_witness.items():
+                fr_w = Frame(self.sidecar, None, True, dict(env2))
+                env2[gname] = I.eval(ast.parse(wit, mode="eval").body, fr_w)
             for i, text in enumerate(c.ensures):
                 g = self.eval_clause(text, env2, old)
                 self.check(g, f"{c.name}/post#{i}", "post", text)
@@ -1645,7 +1681,7 @@ def _collect_consts(recs, acc):
         k = r[0]
         if k == "z3":
             acc.append((r[1], r[2]))
-        elif k in ("list", "tuple"):
+        elif k in ("list", "tuple", "npvec"):
             _collect_consts(r[1], acc)
         elif k == "dict":
             for a, b in r[1]:
